@@ -1,5 +1,7 @@
 --------------------------- MODULE ProxyMsg_Trace ---------------------------
 (* Trace validation for C03.  Every line of the trace is one complete exchange observed on the     *)
+(* (the exchanges of a sequence of identical requests to one proxy instance are separate lines; the *)
+(* contract judges each by itself, cfg.mayHit tells that an earlier one may have filled a cache)    *)
 (* real code over sockets: what the raw client sent (c), what the raw backends received (bs) and    *)
 (* answered (br), what the raw client got back (cr), and the configuration (cfg).  TLC evaluates   *)
 (* the contract of ProxyMsgDefs on it.  Every exchange is consumed; for an exchange that violates   *)
@@ -17,7 +19,7 @@ Msg(j) == [method |-> j.method, target |-> j.target, host |-> j.host, hdr |-> Ra
            body |-> j.body]
 
 XOf(e) ==
-    [cfg |-> [addrIsName |-> e.cfg.addrIsName, keepHost |-> e.cfg.keepHost, maxAttempts |-> e.cfg.maxAttempts,
+    [cfg |-> [addrIsName |-> e.cfg.addrIsName, keepHost |-> e.cfg.keepHost, maxAttempts |-> e.cfg.maxAttempts, mayHit |-> e.cfg.mayHit,
               raReplaces |-> e.cfg.raReplaces, raRecodes |-> e.cfg.raRecodes, raBody |-> e.cfg.raBody,
               raTouched |-> Range(e.cfg.raTouched),
               rsaReplaces |-> e.cfg.rsaReplaces, rsaBody |-> e.cfg.rsaBody, rsaTouched |-> Range(e.cfg.rsaTouched)],
@@ -25,15 +27,18 @@ XOf(e) ==
      bs |-> {Msg(j) @@ [n |-> j.n, via |-> j.via] : j \in Range(e.bs)},
      times |-> Len(e.bs),
      br |-> [status |-> e.br.status, hdr |-> Range(e.br.hdr), conn |-> Range(e.br.conn), nobody |-> e.br.nobody,
-             body |-> e.br.body],
+             short |-> e.br.short, body |-> e.br.body],
      cr |-> [status |-> e.cr.status, hdr |-> Range(e.cr.hdr), body |-> e.cr.body, framing |-> e.cr.framing,
              declared |-> e.cr.declared, got |-> e.cr.got, complete |-> e.cr.complete, after |-> e.cr.after]]
 
-Drift(o, exp) ==
-    (IF o.times = exp.times THEN {} ELSE {"times"}) \cup
-    (IF o.pathrel = exp.pathrel THEN {} ELSE {"pathrel"}) \cup
-    (IF o.blabel = exp.blabel THEN {} ELSE {"blabel"}) \cup
-    (IF o.hostis = exp.hostis THEN {} ELSE {"hostis"}) \cup
+(* loose = whether a backend is asked, and how often, is not predicted: a repeated request to a pool
+   with a memory cache (the real cache has admission rules of its own: Cache-Control, methods), a backend
+   response that breaks off (a retry policy tries again) *)
+Drift(o, exp, loose) ==
+    (IF loose \/ o.times = exp.times THEN {} ELSE {"times"}) \cup
+    (IF loose \/ o.pathrel = exp.pathrel THEN {} ELSE {"pathrel"}) \cup
+    (IF loose \/ o.blabel = exp.blabel THEN {} ELSE {"blabel"}) \cup
+    (IF loose \/ o.hostis = exp.hostis THEN {} ELSE {"hostis"}) \cup
     (IF o.status = exp.status THEN {} ELSE {"status"}) \cup
     (IF o.clabel = exp.clabel THEN {} ELSE {"clabel"})
 
@@ -42,7 +47,8 @@ TStep ==
     /\ LET e == TLog[l]
            x == XOf(e)
            v == Violated(x)
-           d == Drift(Outcome(x), e.exp)
+           \* (a response that breaks off: whether the client sees the status line at all depends on timing)
+           d == IF e.br.short THEN {} ELSE Drift(Outcome(x), e.exp, e.cfg.mayHit)
        IN (v # {} \/ d # {}) => PrintT(<<"VERIF_CASE", e.id, v, d>>)
     /\ l' = l + 1
 
